@@ -141,15 +141,15 @@ func runC57(e *core.Env, s *c57Scenario) {
 // ---------------------------------------------------------------- cache
 
 type c57Entry struct {
-	id, key      int
-	add          span
-	addInvNs     int64
-	addRetNs     int64
-	added        bool // Add returned (item, true)
-	cb           int
-	cbSeq        uint64
-	removed      int
-	inClearCB    bool // the callback ran while a Clear(true) was in progress
+	id, key   int
+	add       span
+	addInvNs  int64
+	addRetNs  int64
+	added     bool // Add returned (item, true)
+	cb        int
+	cbSeq     uint64
+	removed   int
+	inClearCB bool // the callback ran while a Clear(true) was in progress
 }
 
 type c57Clear struct {
@@ -553,9 +553,9 @@ func runC57Ref(e *core.Env, s *c57Scenario) {
 						e.Violate("cleanup_while_referenced", "TryIncrement succeeded but onZero has run")
 					}
 					if !ok {
-					e.Probe("tryincrement_rejected_after_cleanup")
-				}
-				if ok && mine == 1 {
+						e.Probe("tryincrement_rejected_after_cleanup")
+					}
+					if ok && mine == 1 {
 						e.Probe("speculative_acquire_ok")
 					}
 				case op.Kind == "release" && mine > 0:
